@@ -447,3 +447,47 @@ def r11_5(ctx, repo):
                                 'drop the sensitivities'),
                             engine='typestate')
     ctx.floor(rule, 4)
+
+
+def r11_7(ctx, repo):
+    """enable_sensitivities(True, names) always ends with a solver built for
+    *this* request: the flag `_has_sensitivities` does not record which
+    parameters the current solver differentiates, so a path that keeps the
+    existing solver answers an earlier request."""
+    rule = 'R11.7'
+    n = 0
+    done = set()
+    for recv in repo.subclasses('SBMLModel'):
+        for m, k, fn, env, exits, trunc in _run_all(repo, recv):
+            if m != 'enable_sensitivities' or env.get('enabled') is not True:
+                continue
+            construct = '%s.%s' % (recv, m)
+            flags = ', '.join('%s=%s' % kv for kv in sorted(env.items()))
+            for st in exits:
+                rebuilt = any(t[0] == 'rebuild' for t in st.trace)
+                key = (construct, flags)
+                if key in done:
+                    continue
+                if not rebuilt:
+                    done.add(key)
+                    n += 1
+                    ctx.violation(
+                        rule, repo.loc(fn, k, m), construct,
+                        'no rebuild %s' % ', '.join(
+                            '%s=%s' % kv for kv in sorted(env.items())
+                            if not kv[0].startswith('self.')
+                            or kv[0] == 'self._has_sensitivities'),
+                        'a path through %s with {%s} returns without '
+                        'building a solver for the requested sensitivities: '
+                        'the model keeps the solver of an earlier request '
+                        '(other parameter subset), so simulate() returns '
+                        'derivatives for the wrong parameters' % (
+                            construct, flags), engine='typestate')
+            if (construct, flags) not in done:
+                done.add((construct, flags))
+                n += 1
+                ctx.ok(rule, repo.loc(fn, k, m), construct,
+                       'every exit under {%s} rebuilds the solver for the '
+                       'current request' % flags, engine='typestate')
+    if n < 2:
+        ctx.error(rule, 'only %d enable_sensitivities walks (floor 2)' % n)
